@@ -44,6 +44,7 @@
 #include <functional>
 #include <limits>
 #include <random>
+#include <sstream>
 #include <string>
 #include <type_traits>
 #include <vector>
@@ -695,6 +696,230 @@ void drive_engine_real(std::string const &ename, std::string const &rname, std::
   });
 }
 
+
+#if defined(C20_PARAM_API)
+// ------------------------------------------------------------------------------ sessions
+// A session drives ONE distribution::basic object through a sequence of its public members
+// (draw, reset, param(), param(p), operator()(rng, p), min/max, ==/!=, <<) and the equivalent std
+// distribution through the same sequence, each on its own (identically seeded / scripted) engine.
+// Engines are wrapped so that the number of raw values produced so far is observable.
+template <typename E>
+class counting
+{
+public:
+  using result_type = typename E::result_type;
+  explicit counting(E &_e) : e_(_e), n_(0) {}
+  static constexpr result_type min() { return E::min(); }
+  static constexpr result_type max() { return E::max(); }
+  result_type operator()()
+  {
+    result_type const r = e_();
+    ++n_;
+    return r;
+  }
+  [[nodiscard]] long count() const { return n_; }
+
+private:
+  E &e_;
+  long n_;
+};
+
+template <typename R>
+struct fam_int
+{
+  using B = base_of<R>;
+  using params = fcppt::random::distribution::parameters::uniform_int<R>;
+  using sdist = std::uniform_int_distribution<B>;
+  static char const *name() { return "uniform_int"; }
+  static constexpr bool bounded = true;
+  static params make(B const a, B const b) { return params(typename params::min(decorate<R>(a)), typename params::max(decorate<R>(b))); }
+  static typename sdist::param_type smake(B const a, B const b) { return typename sdist::param_type(a, b); }
+  static std::string val(B const v) { return std::to_string(static_cast<long long>(v)); }
+  static std::string par(typename sdist::param_type const &p) { return "[" + val(p.a()) + "," + val(p.b()) + "]"; }
+};
+template <typename R>
+struct fam_real
+{
+  using B = base_of<R>;
+  using params = fcppt::random::distribution::parameters::uniform_real<R>;
+  using sdist = std::uniform_real_distribution<B>;
+  static char const *name() { return "uniform_real"; }
+  static constexpr bool bounded = false;
+  static params make(B const a, B const b) { return params(typename params::min(decorate<R>(a)), typename params::sup(decorate<R>(b))); }
+  static typename sdist::param_type smake(B const a, B const b) { return typename sdist::param_type(a, b); }
+  static std::string val(B const v) { return bits_json(v); }
+  static std::string par(typename sdist::param_type const &p) { return "[" + val(p.a()) + "," + val(p.b()) + "]"; }
+};
+template <typename R>
+struct fam_normal
+{
+  using B = base_of<R>;
+  using params = fcppt::random::distribution::parameters::normal<R>;
+  using sdist = std::normal_distribution<B>;
+  static char const *name() { return "normal"; }
+  static constexpr bool bounded = false;
+  static params make(B const a, B const b) { return params(typename params::mean(decorate<R>(a)), typename params::stddev(decorate<R>(b))); }
+  static typename sdist::param_type smake(B const a, B const b) { return typename sdist::param_type(a, b); }
+  static std::string val(B const v) { return bits_json(v); }
+  static std::string par(typename sdist::param_type const &p) { return "[" + val(p.mean()) + "," + val(p.stddev()) + "]"; }
+};
+
+enum op_code
+{
+  op_draw,
+  op_reset,
+  op_param_get,
+  op_param_set,
+  op_draw_param,
+  op_minmax,
+  op_eq,
+  op_out,
+  op_count
+};
+char const *const op_names[] = {"draw", "reset", "param_get", "param_set", "draw_param", "minmax", "eq", "out"};
+
+constexpr int fresh_draws = 4;
+
+// FE / SE: engine of the fcppt side / of the std side, constructed from farg / sarg.  SE must be copyable.
+// (p1,p2): initial parameters, (q1,q2): the other parameter set used by param_set / draw_param.
+template <typename Fam, typename R, typename FE, typename SE, typename FArg, typename SArg>
+void drive_session(
+    std::string const &rname,
+    std::string const &ename,
+    std::string const &engine_json,
+    FArg const &farg,
+    SArg const &sarg,
+    typename Fam::B const p1,
+    typename Fam::B const p2,
+    typename Fam::B const q1,
+    typename Fam::B const q2,
+    std::vector<int> const &ops,
+    bool const via_variate)
+{
+  using B = typename Fam::B;
+  using params = typename Fam::params;
+  using dist = fcppt::random::distribution::basic<params>;
+  using sdist = typename Fam::sdist;
+  vj::J pre;
+  pre.kv("f", "session").kv("dist", Fam::name()).kv("kind", kind_of<R>::get()).kv("R", rname).kv("eng", ename);
+  pre.s += "," + engine_json;
+  pre.raw("p", "[" + Fam::val(p1) + "," + Fam::val(p2) + "]").raw("q", "[" + Fam::val(q1) + "," + Fam::val(q2) + "]");
+  pre.kv("opcodes", ops).kv("vp", via_variate);
+  emit(pre, [&](vj::J &r) {
+    FE fe{farg};
+    SE se(sarg);
+    counting<FE> cf(fe);
+    counting<SE> cs(se);
+    dist d{Fam::make(p1, p2)};
+    sdist sd(Fam::smake(p1, p2));
+    dist const d0{Fam::make(p1, p2)};
+    sdist const sd0(Fam::smake(p1, p2));
+    // the (generator, parameters) constructor of variate; the variate owns its distribution
+    fcppt::random::variate<counting<FE>, dist> var(fcppt::make_ref(cf), Fam::make(p1, p2));
+    B c1 = p1;
+    B c2 = p2;
+    std::string steps = "[";
+    bool first = true;
+    for (int const op : ops)
+    {
+      std::string w = "[]";
+      std::string s = "[]";
+      std::string extra;
+      bool stop = false;
+      switch (op)
+      {
+      case op_draw:
+      case op_draw_param:
+      {
+        B const l1 = op == op_draw ? c1 : q1;
+        B const l2 = op == op_draw ? c2 : q2;
+        try
+        {
+          R const x = op == op_draw ? (via_variate ? var() : d(cf)) : d(cf, Fam::make(q1, q2));
+          w = "[" + Fam::val(base(x)) + "]";
+        }
+        catch (script_exhausted const &)
+        {
+          stop = true;
+        }
+        try
+        {
+          B const y = op == op_draw ? sd(cs) : sd(cs, Fam::smake(q1, q2));
+          s = "[" + Fam::val(y) + "]";
+        }
+        catch (script_exhausted const &)
+        {
+          stop = true;
+        }
+        if constexpr (Fam::bounded) extra = ",\"lo\":" + Fam::val(l1) + ",\"hi\":" + Fam::val(l2);
+        break;
+      }
+      case op_reset:
+      {
+        d.reset();
+        sd.reset();
+        // a fresh std distribution with the parameters in effect, on a copy of the std engine
+        SE copy(se);
+        counting<SE> cc(copy);
+        sdist fd(Fam::smake(c1, c2));
+        std::string fv = "[";
+        std::vector<int> fn;
+        for (int i = 0; i < fresh_draws; ++i)
+        {
+          try
+          {
+            B const y = fd(cc);
+            fv += (i ? "," : "") + Fam::val(y);
+            fn.push_back(static_cast<int>(cc.count()));
+          }
+          catch (script_exhausted const &)
+          {
+            break;
+          }
+        }
+        extra = ",\"fresh\":" + fv + "],\"freshn\":" + vj::arr(fn);
+        break;
+      }
+      case op_param_get:
+        w = "[" + Fam::par(d.param().convert_from()) + "]";
+        s = "[" + Fam::par(sd.param()) + "]";
+        break;
+      case op_param_set:
+        d.param(Fam::make(q1, q2));
+        sd.param(Fam::smake(q1, q2));
+        c1 = q1;
+        c2 = q2;
+        break;
+      case op_minmax:
+        w = "[[" + Fam::val(base(d.min())) + "," + Fam::val(base(d.max())) + "]]";
+        s = "[[" + Fam::val(sd.min()) + "," + Fam::val(sd.max()) + "]]";
+        break;
+      case op_eq:
+        w = std::string("[[") + (d == d0 ? "1" : "0") + "," + (d != d0 ? "1" : "0") + "]]";
+        s = std::string("[[") + (sd == sd0 ? "1" : "0") + "," + (sd != sd0 ? "1" : "0") + "]]";
+        break;
+      case op_out:
+      {
+        std::ostringstream ow;
+        ow << d;
+        std::ostringstream os;
+        os << sd;
+        w = "[" + vj::cps(ow.str()) + "]";
+        s = "[" + vj::cps(os.str()) + "]";
+        break;
+      }
+      default: break;
+      }
+      steps += std::string(first ? "" : ",") + "{\"op\":\"" + op_names[op] + "\",\"w\":" + w + ",\"s\":" + s + ",\"wn\":" + std::to_string(cf.count()) +
+               ",\"sn\":" + std::to_string(cs.count()) + extra + "}";
+      first = false;
+      if (stop) break;
+    }
+    r.raw("ops", steps + "]");
+  });
+}
+#endif
+
 using f_minstd = fcppt::random::generator::minstd_rand;
 using f_mt = fcppt::random::generator::mt19937;
 
@@ -704,6 +929,155 @@ void engine_int_both(std::string const &rname, ull const seed, base_of<R> const 
   drive_engine_int<R, f_minstd, std::minstd_rand>("minstd_rand", rname, seed == 0 ? 1 : seed, a, b, n);
   drive_engine_int<R, f_mt, std::mt19937>("mt19937", rname, seed, a, b, n);
 }
+
+
+#if defined(C20_PARAM_API)
+template <typename Fam, typename R>
+void session_engines(
+    std::string const &rname,
+    std::string const &eng,
+    ull const seed,
+    std::vector<int> const &script,
+    typename Fam::B const p1,
+    typename Fam::B const p2,
+    typename Fam::B const q1,
+    typename Fam::B const q2,
+    std::vector<int> const &ops,
+    bool const vp)
+{
+  if (eng == "script")
+    drive_session<Fam, R, scripted, scripted>(rname, eng, "\"script\":" + vj::arr(script), script, script, p1, p2, q1, q2, ops, vp);
+  else if (eng == "minstd_rand")
+    drive_session<Fam, R, f_minstd, std::minstd_rand>(
+        rname, eng, "\"seed\":" + num_json(Num{false, seed}), f_minstd::seed(static_cast<f_minstd::result_type>(seed)),
+        static_cast<std::minstd_rand::result_type>(seed), p1, p2, q1, q2, ops, vp);
+  else
+    drive_session<Fam, R, f_mt, std::mt19937>(
+        rname, eng, "\"seed\":" + num_json(Num{false, seed}), f_mt::seed(static_cast<f_mt::result_type>(seed)),
+        static_cast<std::mt19937::result_type>(seed), p1, p2, q1, q2, ops, vp);
+}
+
+// parameters are passed as doubles (all driven values are exactly representable in every base type)
+bool session_named(
+    std::string const &dname,
+    std::string const &rname,
+    std::string const &eng,
+    ull const seed,
+    std::vector<int> const &script,
+    double const p1,
+    double const p2,
+    double const q1,
+    double const q2,
+    std::vector<int> const &ops,
+    bool const vp)
+{
+#define C20_S(D, FAM, N, T) \
+  if (dname == D && rname == N) \
+  { \
+    using B = base_of<T>; \
+    session_engines<FAM<T>, T>(rname, eng, seed, script, static_cast<B>(p1), static_cast<B>(p2), static_cast<B>(q1), static_cast<B>(q2), ops, vp); \
+    return true; \
+  }
+  C20_S("uniform_int", fam_int, "int", int)
+  C20_S("uniform_int", fam_int, "strong_short", strong_short)
+  C20_S("uniform_int", fam_int, "E9", E9)
+  C20_S("uniform_real", fam_real, "double", double)
+  C20_S("uniform_real", fam_real, "float", float)
+  C20_S("uniform_real", fam_real, "strong_double", strong_double)
+  C20_S("normal", fam_normal, "double", double)
+  C20_S("normal", fam_normal, "float", float)
+  C20_S("normal", fam_normal, "strong_float", strong_float)
+#undef C20_S
+  return false;
+}
+
+// operation sequences
+std::vector<std::vector<int>> session_patterns(vj::Rng &r, int const nrandom)
+{
+  std::vector<std::vector<int>> ps;
+  for (int k = 0; k <= 4; ++k)
+  {
+    std::vector<int> a(static_cast<std::size_t>(k), op_draw); // k draws, reset, further draws
+    a.push_back(op_reset);
+    for (int i = 0; i < fresh_draws; ++i) a.push_back(op_draw);
+    ps.push_back(a);
+    std::vector<int> c(static_cast<std::size_t>(k), op_draw); // k draws, new parameters, further draws
+    c.push_back(op_param_set);
+    c.push_back(op_param_get);
+    for (int i = 0; i < 3; ++i) c.push_back(op_draw);
+    ps.push_back(c);
+    std::vector<int> dd(static_cast<std::size_t>(k), op_draw); // k draws, draws with explicit parameters, draws, reset
+    dd.push_back(op_draw_param);
+    dd.push_back(op_draw_param);
+    dd.push_back(op_draw);
+    dd.push_back(op_draw);
+    dd.push_back(op_reset);
+    dd.push_back(op_draw);
+    dd.push_back(op_draw);
+    ps.push_back(dd);
+  }
+  ps.push_back({op_minmax, op_param_get, op_eq, op_out, op_draw, op_eq, op_out, op_draw_param, op_draw, op_eq, op_out, op_param_set, op_param_get,
+                op_minmax, op_draw, op_out, op_reset, op_eq, op_out, op_draw, op_draw, op_eq, op_out, op_draw});
+  ps.push_back({op_reset, op_reset, op_draw, op_reset, op_draw, op_draw, op_draw, op_reset, op_draw, op_draw});
+  for (int j = 0; j < nrandom; ++j)
+  {
+    std::vector<int> a;
+    int const len = 6 + static_cast<int>(r.below(10));
+    for (int i = 0; i < len; ++i)
+    {
+      std::uint64_t const x = r.below(16);
+      a.push_back(x < 8 ? op_draw : x < 11 ? op_reset : static_cast<int>(x - 11 + op_param_get));
+    }
+    ps.push_back(a);
+  }
+  return ps;
+}
+
+void sessions(vj::Rng &rng, bool const thorough)
+{
+  struct Spec
+  {
+    char const *dname;
+    char const *rname;
+    double p1, p2, q1, q2;
+    int script_len; // length of random scripts for the scripted engine
+  };
+  Spec const specs[] = {{"uniform_int", "int", -3, 5, 0, 16, 8},
+                        {"uniform_int", "strong_short", 0, 0, -8, 8, 8},
+                        {"uniform_int", "E9", 1, 6, 0, 8, 8},
+                        {"uniform_real", "double", -1.5, 2.25, 0.0, 1.0, 120},
+                        {"uniform_real", "float", 0.0, 1.0, -8.0, 8.5, 60},
+                        {"uniform_real", "strong_double", 2.0, 2.5, -1.0, 1.0, 120},
+                        {"normal", "double", 1.0, 2.0, -3.5, 0.5, 200},
+                        {"normal", "float", 0.0, 1.0, 4.0, 0.25, 120},
+                        {"normal", "strong_float", -2.0, 0.5, 0.0, 3.0, 120}};
+  std::size_t const nseeds = thorough ? 60 : 8;
+  std::size_t const nscripts = thorough ? 40 : 6;
+  for (Spec const &sp : specs)
+  {
+    std::vector<std::vector<int>> const pats = session_patterns(rng, thorough ? 40 : 8);
+    for (std::size_t i = 0; i < nseeds; ++i)
+    {
+      ull const seed = i == 0 ? 1ULL : i == 1 ? 2147483646ULL : (rng.next() & 0x7FFFFFFFULL) + 2ULL;
+      for (std::size_t k = 0; k < pats.size(); ++k)
+      {
+        session_named(sp.dname, sp.rname, (i + k) % 2 == 0 ? "mt19937" : "minstd_rand", seed, {}, sp.p1, sp.p2, sp.q1, sp.q2, pats[k], false);
+        if (k % 5 == 0) session_named(sp.dname, sp.rname, (i + k) % 2 == 0 ? "minstd_rand" : "mt19937", seed, {}, sp.p1, sp.p2, sp.q1, sp.q2, pats[k], false);
+      }
+      // draws through a variate constructed from (generator, parameters)
+      session_named(sp.dname, sp.rname, i % 2 == 0 ? "mt19937" : "minstd_rand", seed, {}, sp.p1, sp.p2, sp.q1, sp.q2, std::vector<int>(6, op_draw), true);
+    }
+    for (std::size_t i = 0; i < nscripts; ++i)
+    {
+      std::vector<int> script;
+      std::size_t const len = i == 0 ? 0 : static_cast<std::size_t>(sp.script_len) / 2 + rng.below(static_cast<std::uint64_t>(sp.script_len));
+      for (std::size_t j = 0; j < len; ++j) script.push_back(static_cast<int>(rng.below(16)));
+      for (std::size_t k = 0; k < pats.size(); ++k) session_named(sp.dname, sp.rname, "script", 0, script, sp.p1, sp.p2, sp.q1, sp.q2, pats[k], false);
+      session_named(sp.dname, sp.rname, "script", 0, script, sp.p1, sp.p2, sp.q1, sp.q2, std::vector<int>(4, op_draw), true);
+    }
+  }
+}
+#endif
 
 // dispatch by result-type name (record and replay use the same entry points)
 template <typename F>
@@ -807,6 +1181,13 @@ void limit_intervals(std::string const &rname)
 void record(std::uint64_t const seed, bool const thorough)
 {
   vj::Rng rng(seed);
+#if defined(C20_PARAM_API)
+  {
+    // ---- every public member of distribution::basic / variate in lock-step with the std pair
+    vj::Rng srng(seed * 31ULL + 7ULL);
+    sessions(srng, thorough);
+  }
+#endif
   // ---- scripted engine: all intervals -8 <= a <= b <= 8, plain and strong typedef results
   long const stride = thorough ? 1 : 3;
   small_intervals<short>("short", thorough ? 1 : 0, stride);
@@ -933,6 +1314,28 @@ bool replay_one(vj::V const &e)
       else drive_engine_int<R, f_mt, std::mt19937>("mt19937", e.str("R"), s, a, b, static_cast<int>(e.num("n")));
     });
   }
+#if defined(C20_PARAM_API)
+  if (f == "session")
+  {
+    std::string const rn = e.str("R");
+    bool const reals = e.str("dist") != "uniform_int";
+    bool const is_float = rn == "float" || rn == "strong_float";
+    auto const pv = [&](char const *k, std::size_t const i) -> double {
+      vj::V const &x = *e.at(k).a.at(i);
+      if (!reals) return static_cast<double>(x.n);
+      ull u = 0;
+      for (auto const &d : x.a) u = (u << 8U) | static_cast<ull>(d->n);
+      return is_float ? static_cast<double>(std::bit_cast<float>(static_cast<std::uint32_t>(u))) : std::bit_cast<double>(u);
+    };
+    std::vector<int> ops;
+    for (long long x : e.nums("opcodes")) ops.push_back(static_cast<int>(x));
+    std::vector<int> scr;
+    if (e.has("script"))
+      for (long long x : e.nums("script")) scr.push_back(static_cast<int>(x));
+    return session_named(e.str("dist"), rn, e.str("eng"), e.has("seed") ? num_of_json(e.at("seed")).mag : 0ULL, scr, pv("p", 0), pv("p", 1), pv("q", 0),
+                         pv("q", 1), ops, e.at("vp").b);
+  }
+#endif
   if (f == "real")
   {
     ull const s = num_of_json(e.at("seed")).mag;
